@@ -17,7 +17,9 @@ def main():
     req = json.load(open(sys.argv[1]))
     sys.path.insert(0, req["root"])
     sys.path.insert(0, req["repo"])
-    os.environ["PYSNARK_BACKEND"] = "qaptools"
+    kind = req.get("kind", "qap")
+    if kind == "qap":
+        os.environ["PYSNARK_BACKEND"] = "qaptools"
     import subprocess
     subprocess.call = lambda *a, **k: 1
     subprocess.run = lambda *a, **k: types.SimpleNamespace(returncode=1, stdout=b"", stderr=b"")
@@ -33,12 +35,54 @@ def main():
             pass
         return f
     builtins.open = topen
+    recorded = {}            # zkif: file name -> objects written; events
+    events = []
+    if kind == "zkif":
+        # flatbuffers is absent: the ASSUMED Builder contract (contracts/zkif_c.GBuilder) stands in for the library,
+        # and what the real code hands to file.write() is recorded instead of encoded
+        class RecFile:
+            def __init__(self, name):
+                self.name, self.closed = name, False
+                recorded[name] = []
+
+            def write(self, x):
+                recorded[self.name].append(x)
+
+            def flush(self):
+                pass
+
+            def close(self):
+                self.closed = True
+                events.append(("close", self.name))
+
+            def __enter__(self):
+                return self
+
+            def __exit__(self, *a):
+                self.close()
+
+        def zopen(name, mode="r", *a, **k):
+            if isinstance(name, str) and name.endswith(".zkif") and "w" in mode:
+                return RecFile(os.path.basename(name))
+            return topen(name, mode, *a, **k)
+        builtins.open = zopen
     import atexit
     import z3
     from pyvc import sym, contract as ct
     import contracts  # noqa
-    from contracts import qaptools_c
+    from contracts import qaptools_c, zkif_c
     K = ct.REGISTRY[req["function"]]
+    if kind == "zkif":
+        fbw = types.SimpleNamespace(module_overrides={}, environ={}, builtins={}, loadable=None)
+        try:
+            zkif_c._fb_world(fbw)
+        except Exception:
+            pass
+        for k, v in fbw.module_overrides.items():
+            if k.startswith("flatbuffers"):
+                sys.modules[k] = v
+        for mname in tuple(getattr(K, "pre_import", ())) + (K.module,):
+            importlib.import_module(mname)
     cfg, clause, model = req["cfg"], req["clause"], req.get("model") or {}
     p = K.prime
 
@@ -60,7 +104,12 @@ def main():
         def hyps(self):
             return []
     sym.set_path(NPath())
-    qaptools_c.SymInt = lambda t: int(model.get(str(t), 0))
+    class NSym(int):
+        """concrete twin of SymInt(z3.Int(name)) in the contracts' setup: the model's value, a plain int"""
+        def __new__(cls, t):
+            return int(model.get(str(t), 0))
+    qaptools_c.SymInt = NSym
+    zkif_c.SymInt = NSym
 
     def live(name=None):
         out = []
@@ -86,8 +135,12 @@ def main():
         def import_module(self, n):
             return importlib.import_module(n)
 
+        io_events = events
+
         @property
         def fs(self):
+            if kind == "zkif":
+                return recorded
             out = {}
             for n in os.listdir("."):
                 if os.path.isfile(n) and n not in ("req.json", "out.json"):
